@@ -186,7 +186,10 @@ func checkWay(c Case) error {
 }
 
 var closed4 = []int64{1, 2, 3, 1}
-var nodeShapes = [][]int64{nil, {1}, {1, 1}, {1, 2, 1}, {1, 2, 3, 1}, {1, 2, 3, 4, 1}, {1, 2, 3, 4}, {1, 2, 3, 4, 5}, {1, 1, 1, 1}, {1, 2, 1, 2}}
+var nodeShapes = [][]int64{nil, {1}, {1, 1}, {1, 2, 1}, {1, 2, 3, 1}, {1, 2, 3, 4, 1}, {1, 2, 3, 4}, {1, 2, 3, 4, 5}, {1, 1, 1, 1}, {1, 2, 1, 2},
+	// open ways whose end ids agree in their low 32/40/48/56 bits or in magnitude (ids are int64 and compared in full), closed ones with such ids
+	{1, 2, 3, 1 + 1<<48}, {1, 2, 3, 1 + 1<<40}, {1, 2, 3, 1 + 1<<32}, {5, 6, 7, 8, 5 + 1<<56}, {-7, 2, 3, -7 + 1<<62}, {7, 2, 3, 4, -7},
+	{1 + 1<<48, 2, 3, 1 + 1<<48}, {-7, 2, 3, 4, -7}}
 
 func valueClasses(r rule) []string {
 	vs := []string{"", "no", "yes", "unlisted_value", "No", "no ", "1"}
@@ -215,7 +218,7 @@ func deciding(r rule) (yes, no string) {
 
 func TestExhaustive(t *testing.T) {
 	harness.Enumerate(t, "rule-table",
-		"exhaustive over the harness's own transcription of the published table (26 keys): every key x every value class (each listed value, value+suffix, value minus last char, sort-order neighbours, unlisted, empty, no, No, yes) x area in {absent, empty, no, yes, other} x every node-list shape (open, closed with 3/4/5 refs, degenerate); all ordered pairs of rule keys with deciding / non-deciding values in both tag orders; relations over type values; oracle = direct evaluation of the rule text on the tag map; non-trivial = closed way with more than 3 refs whose answer is decided by a listed key (not by the area tag)",
+		"exhaustive over the harness's own transcription of the published table (26 keys): every key x every value class (each listed value, value+suffix, value minus last char, sort-order neighbours, unlisted, empty, no, No, yes) x area in {absent, empty, no, yes, other} x every node-list shape (open, closed with 3/4/5 refs, degenerate, open with end ids equal modulo 2^32/2^40/2^48/2^56 or in magnitude, closed with ids beyond 2^48 and negative); all ordered pairs of rule keys with deciding / non-deciding values in both tag orders; relations over type values; oracle = direct evaluation of the rule text on the tag map; non-trivial = closed way with more than 3 refs whose answer is decided by a listed key (not by the area tag)",
 		true, func(e *harness.Enum) {
 			areas := []*string{nil, sp(""), sp("no"), sp("yes"), sp("other")}
 			run := func(c Case, nt bool, class string) bool {
